@@ -22,8 +22,8 @@
      9          C: ext.request_stop (exists iff p_stop)
    The model is cyclic: after a value the same thread constructs and starts the next next-op, so
    any number of elements is covered by a finite state space.
-   Parameter p_fixed: false = trigger_receiver set_done / set_error destroy sourceOp_ (DESIGN.md
-   section 8 finding 2), true = they destroy triggerOp_ (the code of /repo after e46f32d).
+   Parameter p_fixed: false = trigger_receiver set_done destroys sourceOp_ (DESIGN.md section 8
+   finding 2), true = it destroys triggerOp_ like set_error (the code of /repo after e46f32d).
    Ghost state: life cycle of every operation state (consumer next-op / cleanup-op, source next
    op innerOp_, trigger next op triggerNextOp_, source / trigger cleanup ops sourceOp_ /
    triggerOp_), constructor / destructor counters (capped at 2), who started the trigger
@@ -486,9 +486,10 @@ Definition step_a (t : nat) (s : st) : option (st * list ev) :=
 (* ---------------------------------------------------------------------------------------- *)
 (* thread B                                                                                 *)
 
-(* trigger_receiver set_done / set_error, :269-284: as written they destroy sourceOp_ *)
-Definition trg_cl_destruct (s : st) : st * list ev :=
-  if p_fixed (cfg s) then
+(* trigger_receiver set_done / set_error, :269-284: as written set_done destroys sourceOp_
+   (set_error always destroyed triggerOp_) *)
+Definition trg_cl_destruct (e : bool) (s : st) : st * list ev :=
+  if p_fixed (cfg s) || e then
     (Gh (fun x => set_trg_cl LDead (set_trg_cl_dtor (inc2 (trg_cl_dtor x)) x)) s, [ETrgClDtor true])
   else
     let s0 := Gh (set_trg_cl LRun) (flag_bad_dtor s) in
@@ -514,7 +515,7 @@ Definition step_b (t : nat) (s : st) : option (st * list ev) :=
           if trg_cl_pend (g s) then
             let s1 := Gh (set_trg_cl_pend false) s in
             if is_out (trg_cl (g s1)) then
-              let (s2, e2) := trg_cl_destruct (touch_cl s1) in
+              let (s2, e2) := trg_cl_destruct e (touch_cl s1) in
               let s3 := if e then M (set_trg_err true) s2 else s2 in
               Some (set_bp (BCl e YCompL) s3, ETrgClComplete e :: e2)
             else Some (flag_uaf s1, [ETrgClCompleteBad])
